@@ -68,6 +68,29 @@ Theorem C19_enforced_int_exact_partial :
 Proof. exact enforced_int_exact. Qed.
 Print Assumptions C19_enforced_int_exact_partial.
 
+(* enforcement, array parameters read through ReadParameter (Gradients, Thicknesses): for EVERY first element and
+   whatever follows it, allowed by the schema entry <-> the reader stores the supplied list (otherwise it warns and
+   keeps the current list) ... *)
+Theorem C19_enforced_list :
+  forall p s, p_kind p = KList -> fields_match p s = true ->
+  forall v rest, lstored (read_list p v rest) = schema_allows_elem s v.
+Proof. exact enforced_list_first. Qed.
+Print Assumptions C19_enforced_list.
+
+Theorem C19_enforced_list_stored :
+  forall p s v rest, p_kind p = KList -> fields_match p s = true ->
+  (schema_allows_elem s v = true -> read_list p v rest = LStore (v :: rest)) /\
+  (schema_allows_elem s v = false -> read_list p v rest = LKeep).
+Proof. exact enforced_list_stored. Qed.
+Print Assumptions C19_enforced_list_stored.
+
+(* ... PARTIAL: only the first element is ever checked; an out-of-bounds later element is stored (refuted clause) *)
+Theorem C19_list_rest_refuted :
+  exists p s v w, p_kind p = KList /\ f_min p s = true /\ f_max p s = true /\ schema_allows_elem s v = true /\
+                  schema_allows_elem s w = false /\ read_list p v [w] = LStore [v; w].
+Proof. exact list_rest_refuted. Qed.
+Print Assumptions C19_list_rest_refuted.
+
 (* committed files = generated schema (entry by entry: name and content hash; both inclusions) *)
 Theorem C19_committed :
   forall a b, same_entries a b = true ->
@@ -124,5 +147,7 @@ Example C19_example :
   schema_allows ex_enduse_entry (3#1) = false /\ schema_allows ex_enduse_entry (31#1) = true /\
   same_entries [ex_depth_entry] [ex_depth_entry] = true /\
   result_fields_ok [("SUMMARY OF RESULTS", "LCOE")]%string [("SUMMARY OF RESULTS", "LCOE", "d")]%string = true /\
-  names_ok [ex_depth; ex_enduse] [ex_depth_entry] = false.
+  names_ok [ex_depth; ex_enduse] [ex_depth_entry] = false /\
+  fields_match w_gradients w_gradients_entry = true /\ read_list w_gradients (500#1) [0] = LStore [500#1; 0] /\
+  read_list w_gradients (5001#10) [0] = LKeep.
 Proof. repeat split; vm_compute; reflexivity. Qed.
